@@ -37,6 +37,7 @@ mod srcscan;
 mod c16;
 mod c20;
 mod c20_more;
+mod c20_mn;
 mod c20_src;
 mod datax;
 mod enc;
